@@ -218,3 +218,12 @@ class NextFut(PyObj):
 
 @model(r' as (futures::)?(\w+::)*StreamExt>::next$')
 def _(e, c, a): return NextFut(a[0])
+
+
+# ---------------------------------------------------------------- explicit self-wake (a Pending poll that re-schedules itself)
+@model(r'(?:^|::)Waker::(wake_by_ref|wake)$|(?:^|::)Context(<.*>)?::waker$')
+def _(e, c, a):
+    if c.rstrip().endswith('waker'): return Ref(Cell(Opaque('Waker')))
+    ph = getattr(e, 'pending_hook', None)
+    if ph: ph('self-wake')
+    return mk_unit()
